@@ -24,13 +24,13 @@ echo "demo: clean rc=$rc_clean  mutated rc=$rc_mut"
 # remove demo files, keep patch; build + touched package tests
 for f in $demo_files; do rm -f $WT/$dest $WT/$(dirname $dest)/$f; done
 pkgs=$(cd $WT && git diff --name-only | grep '\.go$' | xargs -n1 dirname | sort -u | sed 's#^#./#')
-( cd $WT && go build $(go list ./... | grep -v 'tun/client\|/cmd/client\|/cmd/specter\|integrations\|^go.miragespace.co/specter$') > /tmp/sv/$ID.build.log 2>&1 ); rc_build=$?
+( cd $WT && go build $(go list ./... | grep -v 'tun/client\|/cmd/client\|/cmd/specter\|integrations\|util/migrator\|^go.miragespace.co/specter$') > /tmp/sv/$ID.build.log 2>&1 ); rc_build=$?
 tpk=""; for p in $pkgs; do case $p in ./tun/client*) ;; *) tpk="$tpk $p";; esac; done
 rc_test=0
 if [ -n "$tpk" ]; then ( cd $WT && go test -vet=off -count=1 $tpk > /tmp/sv/$ID.test.log 2>&1 ); rc_test=$?; fi
 ( cd $WT && git checkout -q go.sum go.mod 2>/dev/null )
 echo "build rc=$rc_build  existing tests ($tpk) rc=$rc_test"
-cd /verif && VERIF_REPO=$WT VERIF_BUILD=/verif/.build/sv_$ID ./check $ID > /tmp/sv/$ID.check.log 2>&1; rc_check=$?
+cd /verif && VERIF_EVIDENCE_DIR=/tmp/sv/evidence VERIF_REPO=$WT VERIF_BUILD=/verif/.build/sv_$ID ./check $ID > /tmp/sv/$ID.check.log 2>&1; rc_check=$?
 echo "check rc=$rc_check :: $(grep -v KNOWN-FINDING /tmp/sv/$ID.check.log | grep 'VIOLATION\|OK property\|INCONCLUSIVE\|MACHINERY' | head -2 | cut -c1-220)"
 rm -rf /verif/.build/sv_$ID
 git -C /repo worktree remove --force $WT
